@@ -517,6 +517,7 @@ type Contract struct {
 	Invokes   []SExpr // trusted behaviour: exactly these calls of function-valued parameters, in order; their results are the function's results
 	LoopExit  map[int][]*Clause // loop ordinal → what holds whenever control leaves the loop for the code after it
 	GuardedParams map[string]string // map-typed parameter → "Type.mu": its contents may only be accessed with that mutex held
+	LoopStep  map[int][]*Clause // loop ordinal → two-state clauses that every iteration satisfies (old = head of the iteration)
 	AppendFrames bool // emit the old-side frame axiom at appends (witness transfer for exists-facts)
 }
 
@@ -729,6 +730,14 @@ func (cs *ContractSet) LoadContractFile(path, pkgPath string) error {
 					cur.LoopExit = map[int][]*Clause{}
 				}
 				cur.LoopExit[n] = append(cur.LoopExit[n], c)
+				break
+			}
+			if parts[1] == "step" {
+				// two-state clause over one iteration: old(E) is E at the head of the iteration
+				if cur.LoopStep == nil {
+					cur.LoopStep = map[int][]*Clause{}
+				}
+				cur.LoopStep[n] = append(cur.LoopStep[n], c)
 				break
 			}
 			if word == "closure" {
